@@ -37,6 +37,10 @@ func main() {
 		fmt.Fprintln(os.Stderr, "usage: harness <port> < script")
 		os.Exit(2)
 	}
+	if os.Args[1] == "fshelper" {
+		fsHelper(os.Args[2:])
+		return
+	}
 	mk := ports[os.Args[1]]
 	if mk == nil {
 		fmt.Fprintln(os.Stderr, "unknown port", os.Args[1])
